@@ -16,7 +16,11 @@ mod c01;
 #[cfg(kani)]
 mod c04;
 #[cfg(kani)]
+mod c05;
+#[cfg(kani)]
 mod c06;
+#[cfg(kani)]
+mod c12;
 #[cfg(kani)]
 mod c07;
 #[cfg(kani)]
